@@ -260,6 +260,7 @@ VARIANTS = [
     V("numba max / min handed to the raw numpy_groupies kernel", ("C01",), "R-NUMBAMINMAX", "aggregate_npg.py", 'max = partial(_minmax, func="max")\nmin = partial(_minmax, func="min")\n', '', must_mention="skips NaN"),
     V("tree node casts its concatenated children to the narrowest child dtype", ("C03", "C02"), "R-COMBINECAST", "core.py", '    return _concatenate2(mapped, axes=axis)', '    concatenated = _concatenate2(mapped, axes=axis)\n    narrowest = min((np.asarray(block).dtype for block in mapped), key=lambda dt: dt.itemsize)\n    return concatenated.astype(narrowest, copy=False)', must_mention="split_every"),
     V("reindex refusals taken for lazy values only, not for lazy labels", ("C19",), "R-NORMFORM", "core.py", '    if reindex_.blockwise is True and not all_eager:', '    if reindex_.blockwise is True and is_dask_array:', must_mention="any_by_dask"),
+    V("zero-length blocks no longer dropped for the blockwise plan", ("C19",), "R-ZEROBLOCK", "core.py", '        if method == "blockwise" and any(0 in array.chunks[ax] for ax in axis_):', '        if False:', must_mention="zero-length"),
     V("dtype promotion memoised with an untyped key", ("C14",), "R-MEMO", "xrdtypes.py", '        dtype = np.result_type(dtype, fill_value)\n    return dtype\n',
       '        dtype = _promote_for_fill_value(dtype, fill_value)\n    return dtype\n\n\n@functools.lru_cache\ndef _promote_for_fill_value(dtype: np.dtype, fill_value) -> np.dtype:\n    return np.result_type(dtype, fill_value)\n', must_mention="typed"),
     V("twin: dtype promotion memoised with typed=True", ("C14",), "", "xrdtypes.py", '        dtype = np.result_type(dtype, fill_value)\n    return dtype\n',
